@@ -35,14 +35,17 @@ def tasks(tier, seed):
     T = []
     quick = tier == 'quick'
     rng = random.Random(seed)
-    intervals = [(0.0, 1.0), (-3.0, -1.0), (1000.0, 1000.1), (-1.0, 7.0), (-1.0, 0.0), (-0.125, 0.0), (0.0, 0.001)]  # (end points exactly zero included)
+    intervals = [(0.0, 1.0), (-3.0, -1.0), (1000.0, 1000.1), (-1.0, 7.0), (-1.0, 0.0), (-0.125, 0.0), (0.0, 0.001), (0.0, 1e-6)]  # (end points exactly zero included)
     for _ in range(3):
         a = rng.uniform(-5, 5)
         intervals.append((a, a + rng.uniform(0.01, 3)))
     for nt in NODE_TYPES:
         for qt in QUAD_TYPES:
             for M in (range(1, 6) if quick else range(1, 9)):
-                T.append(('coll', nt, qt, M, intervals if not quick else intervals[:7] + intervals[7:8]))
+                ivs = intervals if not quick else intervals[:8] + intervals[8:9]
+                if M > 5:  # (on intervals shorter than 1e-5 the qmat generator merges nodes closer than 1e-8 to an end point with it -- the defect recorded for large offsets; with M <= 5 all nodes stay clear of that)
+                    ivs = [iv for iv in ivs if iv[1] - iv[0] >= 1e-5]
+                T.append(('coll', nt, qt, M, ivs))
     return T
 
 
